@@ -143,6 +143,7 @@ class Hier(object):
             self.conn = LogConn(':memory:')
         self.conn2 = LogConn(':memory:')
         self.tx = None
+        self.keep = []   # transaction-side instances, held until the transaction ends
         _counter[0] += 1
         self.reg = 'c15reg%d' % _counter[0]
         self.classes = []
@@ -202,6 +203,7 @@ class Hier(object):
             except Exception:
                 pass
             self.tx = None
+        self.keep = []
         for conn in (self.conn, self.conn2):
             for t in self.tables + [self.rtable]:
                 conn.query('DELETE FROM %s' % t)
@@ -388,6 +390,8 @@ def view_of(h, i, k=0):
     for e, cls in enumerate(h.classes):
         try:
             o = cls.get(i, connection=cx)
+            if h.tx is not None:
+                h.keep.append(o)
             m = h.idx.get(type(o).__name__, -1)
             vals = []
             for a in reversed(anc(h.shape, m)) if m >= 0 else []:
@@ -420,6 +424,8 @@ def run_op(h, op, k=0):
             conn.stmts = []
             try:
                 o = cls(**kw)
+                if h.tx is not None:
+                    h.keep.append(o)
             finally:
                 stmts, conn.stmts = conn.stmts, None
             return 'id %d ins%s' % (o.id, ''.join(' %d' % c for c in stmt_tables(h, stmts, 'INSERT INTO')))
@@ -431,20 +437,30 @@ def run_op(h, op, k=0):
             return 'ok'
         if t == 'get':
             o = h.classes[op[1]].get(op[2], connection=cx)
+            if h.tx is not None:
+                h.keep.append(o)
             return 'ok %d' % h.idx.get(type(o).__name__, -1)
         if t == 'read':
             o = h.classes[op[1]].get(op[2], connection=cx)
+            if h.tx is not None:
+                h.keep.append(o)
             return 'val %s' % (getattr(o, 'v%dk%d' % (op[3], op[4])),)
         if t == 'write':
             o = h.classes[op[1]].get(op[2], connection=cx)
+            if h.tx is not None:
+                h.keep.append(o)
             setattr(o, 'v%dk%d' % (op[3], op[4]), op[5])
             return 'ok'
         if t == 'set':
             o = h.classes[op[1]].get(op[2], connection=cx)
+            if h.tx is not None:
+                h.keep.append(o)
             o.set(**dict(('v%dk%d' % (a, k2), v) for a, k2, v in op[3]))
             return 'ok'
         if t == 'destroy':
             o = h.classes[op[1]].get(op[2], connection=cx)
+            if h.tx is not None:
+                h.keep.append(o)
             conn.stmts = []
             res = 'ok'
             try:
@@ -483,12 +499,12 @@ def run_op(h, op, k=0):
         if t == 'rollback':
             tx, h.tx = h.tx, None
             tx.rollback()
-            h.conn.cache.clear()
+            h.keep = []
             return 'ok'
         if t == 'commit':
             tx, h.tx = h.tx, None
             tx.commit(close=True)
-            h.conn.cache.clear()
+            h.keep = []
             return 'ok'
     except Exception as ex:
         conn.stmts = None
@@ -753,6 +769,47 @@ def _oracle_views(shape, raw, i, struct):
 
 # ----------------------------------------------------------------------------- one case
 
+def take_handles(h, shape, raw):
+    """most-derived instances of every object of the default database, fetched through the main
+    connection with every attribute read once (so that every level's instance holds its values)"""
+    out = {}
+    for r in range(len(shape)):
+        if shape[r][0] is not None:
+            continue
+        for i in raw[r]:
+            try:
+                o = h.classes[r].get(i)
+                m = h.idx.get(type(o).__name__, -1)
+                for a in anc(shape, m):
+                    for k in range(shape[a][1]):
+                        getattr(o, 'v%dk%d' % (a, k))
+                out[(r, i)] = (o, m)
+            except Exception:
+                pass
+    return out
+
+
+def check_handles(h, shape, raw, handles, after_what):
+    """every attribute read through a handle taken before the transaction equals the raw row of the
+    declaring level (objects whose rows are gone are skipped)"""
+    bad = []
+    for (r, i), (o, m) in sorted(handles.items()):
+        if m < 0 or i not in raw[m]:
+            continue
+        for a in reversed(anc(shape, m)):
+            for k in range(shape[a][1]):
+                try:
+                    got = 'val %s' % (getattr(o, 'v%dk%d' % (a, k)),)
+                except Exception as ex:
+                    got = exc(ex)
+                want = 'val %s' % (raw[a][i][1][k],) if i in raw[a] else None
+                if want is not None and got != want:
+                    bad.append(('stale-level-after-%s' % after_what,
+                                'instance K%d id %d loaded before the transaction: after %s v%dk%d (declared by K%d) reads '
+                                '%s, the row holds %s' % (m, i, after_what, a, k, a, got, want)))
+    return bad
+
+
 def run_case(shape, ops, cold=False, view_extra=None):
     """run a history on the real code.  returns (lines for the model, impl answers aligned with the
     lines (None for the tree line), oracle failures [(step, kind, text)]).
@@ -772,6 +829,7 @@ def run_case(shape, ops, cold=False, view_extra=None):
     state = {0: h.raw(0), 1: h.raw(1)}
     inv0 = check_invariant(shape, state[0])
     allocated = {0: set(), 1: set()}
+    handles = {}
     for step, op in enumerate(ops):
         if cold:
             h.clear_caches()
@@ -789,6 +847,10 @@ def run_case(shape, ops, cold=False, view_extra=None):
             continue
         before = state[cur]
         line = op_line(op)
+        if t == 'begin' and not cold:
+            # handles on the main connection, loaded before the transaction starts: after commit /
+            # rollback they must show what the rows hold, at every level
+            handles = take_handles(h, shape, before)
         if t == 'destroy':
             bl = h.blocked_levels(cur, op[2])
             if bl:
@@ -817,6 +879,11 @@ def run_case(shape, ops, cold=False, view_extra=None):
             lines += ['conn %d' % o, 'dump', 'conn %d' % cur]
             impl += ['ok', fmt_dump(other), 'ok']
         ids = []
+        if t in ('commit', 'rollback') and ans == 'ok':
+            for kind, text in check_handles(h, shape, after, handles, t):
+                fails.append((step, kind, text))
+            handles = {}
+            ids += sorted(allocated[0])      # and through every class, by get(), on the main connection
         m = re.match(r'id (\d+) ', ans)
         if m:
             ids.append(int(m.group(1)))
@@ -1103,6 +1170,38 @@ def sweep_cases(shape):
     return cases
 
 
+def tx_sweep_cases(shape):
+    """one transaction changes an object (every attribute of its chain, entered through every level
+    in turn) and destroys an object of another / the same kind, then commits or rolls back; the
+    objects were loaded on the main connection before (systematic, no randomness)"""
+    n = len(shape)
+    cases = []
+    for c in range(n):
+        chain = anc(shape, c)
+        attrs = [(a, k) for a in reversed(chain) for k in range(shape[a][1])]
+        if not attrs:
+            continue
+        for d in range(n):
+            if root_of(shape, d) != root_of(shape, c):
+                continue
+            ops = [['create', c, [[a, k, 1] for a, k in attrs]],
+                   ['create', d, []], ['create', c, []], ['get', root_of(shape, c), 1], ['get', c, 3]]
+            end = 'rollback' if (c + d) % 3 == 2 else 'commit'
+            ops.append(['begin'])
+            for j, (a, k) in enumerate(attrs):
+                ops.append(['write', chain[j % len(chain)], 1, a, k, 5 + j])
+            ops.append(['destroy', root_of(shape, d) if d % 2 else d, 2])
+            ops.append(['set', c, 3, [[a, k, 9] for a, k in attrs[:2]]])
+            ops.append([end])
+            ops.append(['select', root_of(shape, c), ['tt']])
+            ops.append(['begin'])
+            ops.append(['write', c, 3, attrs[0][0], attrs[0][1], 4])
+            ops.append(['destroy', c, 1])
+            ops.append(['commit'])
+            cases.append((shape, ops, False))
+    return cases
+
+
 def corpus_cases():
     cases = []
     d = os.path.join(os.path.dirname(os.path.dirname(os.path.abspath(__file__))), 'corpus', 'C15')
@@ -1161,6 +1260,7 @@ def run(ctx):
     nshapes = ctx.budget(10, 60)
     shapes = [norm_shape(BASE_SHAPE)] + [norm_shape(gen_shape(rng)) for _ in range(nshapes)]
     cases += sweep_cases(shapes[0])
+    cases += tx_sweep_cases(shapes[0])
     if ctx.tier == 'thorough' or ctx.deep:
         for sh in shapes[1:6]:
             cases += sweep_cases(sh)
@@ -1171,7 +1271,7 @@ def run(ctx):
         nops = rng.randint(3, 25)
         q = rng.random()
         flavour = 'plain' if q < 0.55 else 'refs' if q < 0.75 else 'two' if q < 0.92 else 'tx'
-        cases.append((shape, gen_history(rng, shape, nops, flavour), rng.random() < 0.3))
+        cases.append((shape, gen_history(rng, shape, nops, flavour), flavour != 'tx' and rng.random() < 0.3))
 
     all_lines = []
     results = []
